@@ -47,7 +47,7 @@ OPS_BY_NAME = {}
 
 def plan(tier):
     if tier == "thorough":
-        return dict(runs=12000, wall_budget=1500, per_run_timeout=300, selftest=16, shrink_evals=200, shrink_seconds=120)
+        return dict(runs=18000, wall_budget=1500, per_run_timeout=300, selftest=16, shrink_evals=200, shrink_seconds=120)
     return dict(runs=256, wall_budget=240, per_run_timeout=240, selftest=4, shrink_evals=80, shrink_seconds=40)
 
 
